@@ -672,6 +672,7 @@ static POINTS: AtomicU64 = AtomicU64::new(0);
 static BAD_POINTS: AtomicU64 = AtomicU64::new(0);
 static FIRST_BAD: AtomicU64 = AtomicU64::new(u64::MAX);
 static FIRST_BAD_CODE: AtomicI32 = AtomicI32::new(0);
+static FORK_FAILURES: AtomicU64 = AtomicU64::new(0);
 static TEXT_LO: AtomicUsize = AtomicUsize::new(0);
 static TEXT_HI: AtomicUsize = AtomicUsize::new(0);
 static mut PREEMPT_B: Option<(*const dyn Subj, Vec<Q>, Vec<Ans>)> = None;
@@ -723,6 +724,11 @@ extern "C" fn on_trap(_sig: libc::c_int, _info: *mut libc::siginfo_t, uc: *mut l
                 }
             }
             return; // resume A; the code after A's call checks its answer and exits
+        }
+        if pid < 0 {
+            // fork failed (resource limit): the point is not explored; the run is marked non-exhaustive
+            FORK_FAILURES.fetch_add(1, Relaxed);
+            return;
         }
         let mut status = 0;
         libc::waitpid(pid, &mut status, 0);
@@ -845,6 +851,7 @@ fn run_preempt(ctx: &mut Ctx, d: &SubjDesc, max_triples: usize) {
                 }
                 if points_total >= point_cap {
                     ctx.count("preemption_point_cap_hit");
+                    ctx.add("caps_hit", 1);
                     break 'outer;
                 }
                 triples += 1;
@@ -901,6 +908,11 @@ fn run_preempt(ctx: &mut Ctx, d: &SubjDesc, max_triples: usize) {
         }
     }
     ctx.add("preemption_triples", triples as u64);
+    let ff = FORK_FAILURES.swap(0, SeqCst);
+    if ff > 0 {
+        ctx.add("caps_hit", 1);
+        ctx.add("preemption_points_skipped_fork_failed", ff);
+    }
 }
 
 impl Case for CCase {
